@@ -719,12 +719,12 @@ class Sh:
                 if len(self.res["samples"]) < 1: self.res["samples"].append({"refused": text[:300], "why": rep[ip][:200]})
 
 
-QUICK = {"csv": 260, "csvtyped": 60, "csvtol": 160, "file": 170, "filetol": 120, "sqlite": 110, "sqlitetol": 120, "utf8": 220, "utf8tol": 220}
+QUICK = {"csv": 700, "csvtyped": 120, "csvtol": 450, "file": 450, "filetol": 350, "sqlite": 300, "sqlitetol": 350, "utf8": 600, "utf8tol": 600}
 
 
 def plan(tier, seed):
     sh = []
-    mult = 1 if tier == "quick" else 25
+    mult = 1 if tier == "quick" else 10
     for kind in ("csv", "file", "sqlite", "utf8"):
         for k in range(3):
             sh.append({"kind": kind, "k": k, "seed": seed, "tier": tier, "mult": mult})
